@@ -203,7 +203,7 @@ def run_design(scn, layer="L2", order=None, nominal_height=None, manager=None):
     return out
 
 
-def fresh_simulate(scn, coords, height, layer="L2", hourly=None):
+def fresh_simulate(scn, coords, height, layer="L2", hourly=None, construct_h=None):
     """Independent re-simulation of a returned design, built the way the tool documents its final step:
     long-time g family at [min, mid, max] height, interpolated at ``height``, hybrid loads, fresh objects."""
     import ghedesigner.gfunction as gfm
@@ -217,7 +217,8 @@ def fresh_simulate(scn, coords, height, layer="L2", hourly=None):
     b = m["borehole"]
     # the tool builds the GHE of the selected field at the maximum height (hybrid loads and their peak durations are
     # computed there and deliberately not updated afterwards) and only then moves the height: do the same
-    b.H = scn["hmax"]
+    # (the 'smallest available configuration' fallback is the one path that builds it at the minimum height)
+    b.H = scn["hmax"] if construct_h is None else construct_h
     bsp = borehole_spacing(b, coords)
     v_b = scn["flow"] if scn["flow_type"] == "BOREHOLE" else scn["flow"] / n
     m_flow = v_b / 1000.0 * m["fluid"].rho
